@@ -2,7 +2,7 @@
    what the implementation was observed to do, checked against the model. *)
 From Coq Require Import String List NArith ZArith Bool.
 From J5V.lib Require Import Outcome Corr Json.
-From J5V.model Require Import CodecTypes CodecDecScalar CodecDec CodecDecQuery CodecDecTree CodecDecTime CodecDecCommute.
+From J5V.model Require Import CodecTypes CodecDecScalar CodecDec CodecDecQuery CodecDecTree CodecDecTime CodecDecCommute CodecDecFloat.
 From J5V.lib Require Decimal.
 Import ListNotations.
 Local Open Scope N_scope.
@@ -94,9 +94,9 @@ Definition dec_check (c : deccase) : bool :=
   | CLex doc toks me =>
       let '(ts, me') := lex doc in tokens_eqb ts toks && Bool.eqb me me'
   | CDec e root doc ft tmt dt obs =>
-      env_wf e && time_table_ok tmt && decimal_table_ok dt && obs_matches (decode_document (orc_of ft tmt dt) e root doc) obs
+      env_wf e && float_table_ok ft && time_table_ok tmt && decimal_table_ok dt && obs_matches (decode_document (orc_of ft tmt dt) e root doc) obs
   | CQuery e root kvs ft tmt dt obs =>
-      env_wf e && time_table_ok tmt && decimal_table_ok dt && existsb (fun p => obs_matches (decode_query (orc_of ft tmt dt) e root p) obs) (perms kvs)
+      env_wf e && float_table_ok ft && time_table_ok tmt && decimal_table_ok dt && existsb (fun p => obs_matches (decode_query (orc_of ft tmt dt) e root p) obs) (perms kvs)
   | CTime s r => time_eqb (go_time_parse s) r
   | CDecimal s r => decimal_obs_ok s r
   | CEnv e => env_wf e && env_separate e && env_commute e
